@@ -140,8 +140,29 @@ def gls(case, xs, ys, fb, priors, ctx=None, snap=None):
     if ctx is not None and ctx.lean is not None:
         from fractions import Fraction
         from pe_util import q2j
-        rr = ctx.lean.call({'op': 'gls', 'A': [[q2j(float(v)) for v in row] for row in A], 'W': [[q2j(float(v)) for v in row] for row in W],
-                            'y': [q2j(float(v)) for v in yv]})
+        if not case['correlated']:
+            # uncorrelated fits: the Lean model assembles the problem itself (data sets in the order handed over - it stacks
+            # them by key -, prior rows, weights) and solves it; sensitivities come back in stacked order
+            order = keys if not case.get('perm') else keys[::-1]
+            blocks, pos = [], 0
+            span = {}
+            for key in keys:
+                span[key] = (pos, pos + len(ys[key]))
+                pos += len(ys[key])
+            for key in order:
+                a_, b_ = span[key]
+                blocks.append({'key': key, 'rows': [[q2j(float(v)) for v in A[i][:npar]] for i in range(a_, b_)],
+                               'y': [q2j(float(v)) for v in yv[a_:b_]], 'dy': [q2j(float(v)) for v in dy[a_:b_]]})
+            pri = [[int(i), q2j(float(pv)), q2j(float(pd))] for i, (pv, pd, po) in sorted(priors.items())] if priors else []
+            rr = ctx.lean.call({'op': 'fitlinear', 'blocks': blocks, 'npar': npar, 'priors': pri})
+            if 'order' in rr and rr['order'] != keys:
+                ctx.count('lean-stacking-order-differs')
+                rr = {'exc': 'order'}
+            else:
+                ctx.count('assembled-by-the-lean-model')
+        else:
+            rr = ctx.lean.call({'op': 'gls', 'A': [[q2j(float(v)) for v in row] for row in A], 'W': [[q2j(float(v)) for v in row] for row in W],
+                                'y': [q2j(float(v)) for v in yv]})
         if '_err' in rr or 'exc' in rr:
             ctx.count('exact-gls-unavailable')
         else:
